@@ -21,7 +21,7 @@ PROP = {
                   "the repo's captured QUIC sample) and the scripted-stream model of a QUIC receive stream (a fired read deadline is "
                   "sticky until it is set again; afterwards the remaining bytes are readable). When Sniffer.TCP returns an error the "
                   "server closes the stream, so no transparency claim is made for that case (counted in evidence).",
-    "rule": "TCP: family {http 40%, tls 40%, other 20%} x cut mode {one chunk, bytewise head, around field ends (+-1), random, fixed "
+    "rule": "Each rapid case hooks 2-4 TCP streams (resp. 1-3 UDP first datagrams) of mixed protocols with ONE Sniffer, sequentially or (25%) from concurrent goroutines; every returned putback slice / data slice is held uncopied and all oracles are evaluated only after the last Sniffer call of the case returned (the server holds the putback while it dials). Evaluations are counted per stream/datagram. TCP: family {http 40%, tls 40%, other 20%} x cut mode {one chunk, bytewise head, around field ends (+-1), random, fixed "
             "size 1..4097, inside the 5-byte prefix} x 0-2 stalls {head 0..5, around field ends, anywhere, at end} x FIN/open x "
             "EOF-with-data x port filter/RewriteDomain. Non-trivial: a chunk boundary or stall strictly inside the 3-byte probe, inside "
             "the TLS length bytes, or inside the header block / TLS record; a stall before the end; or an HTTP header block > 4096 bytes. "
@@ -29,6 +29,7 @@ PROP = {
             "shifted CRYPTO layouts). Distinct = (kind, lengths, cut offsets, stall offsets, fin, rewritten, putback length) resp. "
             "(class, version, cid/token/len widths, pn length, frame layout, sizes).",
     "assumptions": [
+        "a putback returned by Sniffer.TCP belongs to the caller from the moment TCP returns (the server holds it across Outbound.TCP)",
         "Sniffer.TCP/UDP are called only for addresses for which Check returned true (as the server does)",
         "a stream Read returns data together with an error only for io.EOF (FIN); a fired deadline returns (0, timeout)",
         "rewriting is checked in the safety direction only: 'rewritten only to a name present, port kept'; how often it happened is in the class histogram",
@@ -36,8 +37,8 @@ PROP = {
     "tests": [
         {"name": "TestVerifC17_BuilderSelfCheck", "unit": S, "kind": "plain"},
         {"name": "TestVerifC17_Regress_QUICSampleUnchanged", "unit": S, "kind": "plain"},
-        {"name": "TestVerifC17_TCP", "unit": S, "quick": 10000, "thorough": 60000, "shards_thorough": 12},
-        {"name": "TestVerifC17_UDP", "unit": S, "quick": 6000, "thorough": 40000, "shards_thorough": 12},
+        {"name": "TestVerifC17_TCP", "unit": S, "quick": 4000, "thorough": 25000, "shards_thorough": 12},
+        {"name": "TestVerifC17_UDP", "unit": S, "quick": 3000, "thorough": 20000, "shards_thorough": 12},
         {"name": "TestVerifC17_ServerForwardsFirstPacket", "unit": C, "quick": 3000, "thorough": 20000, "shards_thorough": 4},
         {"name": "FuzzVerifC17_TCP", "unit": S, "kind": "fuzz", "fuzz_secs": 120},
         {"name": "FuzzVerifC17_UDP", "unit": S, "kind": "fuzz", "fuzz_secs": 90},
